@@ -14,7 +14,7 @@ use crate::{
     BytecodePathStr, CompilationError, VecErr,
 };
 
-use super::{new_err, Compile, Dependencies, Ident, TypeLayout};
+use super::{new_err, Compile, Dependencies, Dependency, Ident, TypeLayout};
 
 #[derive(Debug)]
 pub(crate) enum Import {
@@ -90,7 +90,19 @@ impl Compile for Import {
     }
 }
 
-impl Dependencies for Import {}
+impl Dependencies for Import {
+    /// An import declares the names it binds (the module, or each imported member): uses that
+    /// follow it in the same function refer to these locals and must not be captured from outside.
+    fn supplies(&self) -> Vec<Dependency> {
+        match self {
+            Self::Standard { store, .. } => vec![Dependency::new(Cow::Borrowed(store))],
+            Self::Names { names, .. } => names
+                .iter()
+                .map(|name| Dependency::new(Cow::Borrowed(name)))
+                .collect(),
+        }
+    }
+}
 
 impl Import {
     pub fn path_from_parts(user_data: &AssocFileData, str_part: &str) -> Result<PathBuf> {
